@@ -12,6 +12,13 @@ package keys
 //@ spec kemPubOf(k Ref) Bytes
 //@ spec dhAgree(priv Bytes, pub Bytes) Bytes
 //@ spec kemSecret(ct Bytes, k Ref) Bytes
+// kemShared(pub, ct): the secret that ciphertext ct carries for the key pair whose public half
+// encodes as pub.  Encapsulate produces (ct, kemShared(pub, ct)); Decapsulate with the matching
+// pair recomputes it (ML-KEM correctness, assumed); for a ct that was not produced for pub it is
+// ML-KEM's implicit-rejection value - still a function of every byte of ct.
+//@ spec kemShared(pub Bytes, ct Bytes) Bytes
+// dhPub(priv): the X25519 public value of a private scalar; agreement commutes (assumed, C02 axioms).
+//@ spec dhPub(priv Bytes) Bytes
 
 //@ func ParseKEMPublicKeyFromBytes(data []byte) (k *KEMPublicKey, err error)
 //@   assume ML-KEM library wrapper
@@ -32,12 +39,14 @@ package keys
 //@ func Encapsulate(rng io.Reader, dest *KEMPublicKey) (ct []byte, ss []byte, err error)
 //@   assume ML-KEM library wrapper (encapsulation to a parsed key does not fail)
 //@   pure
-//@   ensures err == nil ==> len(ct) == 768 && len(ss) == 32
+//@   ensures err == nil ==> len(ct) == 768 && len(ss) == 32 && bytes(ss) == kemShared(kemPubOf(ref(*dest)), bytes(ct))
+//@   ensures err == nil ==> fresh(ct) && fresh(ss)
 
 //@ func (kp *KEMKeyPair) Decapsulate(ct []byte) (ss []byte, err error)
 //@   assume ML-KEM library wrapper (implicit rejection: decapsulation of a right-sized ciphertext does not fail)
 //@   pure
-//@   ensures err == nil ==> len(ss) == 32 && len(ct) == 768
+//@   ensures err == nil ==> len(ss) == 32 && len(ct) == 768 && bytes(ss) == kemShared(kemPubOf(ref(kp.Public)), bytes(ct))
+//@   ensures err == nil ==> fresh(ss)
 
 //@ func GenerateKEMKeyPair(rng io.Reader) (kp *KEMKeyPair, err error)
 //@   assume ML-KEM library wrapper
@@ -52,9 +61,11 @@ package keys
 //@ func (x *X25519KeyPair) DH(other []byte) (out []byte, err error)
 //@   assume curve25519.X25519
 //@   pure
-//@   ensures err == nil ==> len(out) == 32 && bytes(out) == dhAgree(bytes(x.Private), bytes(other))
+//@   ensures err == nil ==> len(out) == 32 && bytes(out) == dhAgree(bytes(x.Private), bytes(other)) && fresh(out)
 
+// exAgree(e, other): what the configured static key (behind the interface) agrees on with `other`
+//@ spec exAgree(e Ref, other Bytes) Bytes
 //@ func (e Exchangable) Agree(other []byte) (out []byte, err error)
 //@   assume key agreement of the configured static key (X25519 or an agent)
 //@   pure
-//@   ensures err == nil ==> len(out) == 32
+//@   ensures err == nil ==> len(out) == 32 && bytes(out) == exAgree(ref(e), bytes(other)) && fresh(out)
